@@ -19,6 +19,7 @@ RULE = (
     "simultaneously inside their function <= max_concurrency; pooled nodes never enter on the invoking thread, "
     "main-thread nodes always do. non-trivial = at some blocking wait in-flight == max_concurrency while another node "
     "was ready (the bound was binding) and the DAG uses >= 2 resources."
+    " Round 8-10 additions: pool-spawn fault; activation flags and debug sites in the programs; a reconfiguration with an unusable last entry (every attribute shown afterwards is old or new, the model follows what the API shows); a 'very wide' family of 33-48 independent pooled nodes with max_concurrency >= n; call from a non-main thread / debug logging on / warnings as errors."
 )
 ASSUMPTIONS = [
     "pool submissions are observed through the ThreadPoolExecutor subclass installed by the harness",
